@@ -33,42 +33,70 @@ def _sort_key_attr(call):
     return None
 
 
+def multisig_scenario(ctx, sort_keys, key_ids, pubs, m):
+    """Wallet._new_key_multisig evaluated as a whole for cosigner key objects with the given ids / public keys (the first one is this
+    wallet's own): returns the keyword arguments of the Script(...) it builds and the DbKeyMultisigChildren rows it adds."""
+    q = 'wallets:Wallet._new_key_multisig'
+    fn = ctx.repo.func(q)
+    A = lambda b, n: ('attr', b, n)
+    heap = {A(SELF, 'sort_keys'): sort_keys, A(SELF, 'cosigner_id'): 0, A(SELF, 'multisig_n_required'): m}
+    objs = []
+    for i, kid in enumerate(key_ids):
+        K = ('var', 'key%d' % kid)
+        heap.update({A(K, 'key_public'): pubs[kid], A(K, 'key_id'): kid, A(K, 'path'): "m/45'/0/0" if i == 0 else 'M/0/0', A(A(K, 'wallet'), 'cosigner_id'): i})
+        objs.append(S(K))
+    script, kids = [], []
+
+    def h_script(it, args, kwargs, st, node):
+        script.append({k: (v if isinstance(v, (int, bytes, str)) else ([term(x) for x in v] if isinstance(v, list) else term(v))) for k, v in kwargs.items()})
+        return S(('var', 'script'))
+
+    def h_child(it, args, kwargs, st, node):
+        kids.append({k: (v if isinstance(v, int) else term(v)) for k, v in kwargs.items()})
+        return S(('var', 'child'))
+
+    def decide(t):
+        # the address is new: the lookup of an existing key with that address finds nothing
+        if isinstance(t, tuple) and t and t[0] == 'mcall' and t[2] == 'first':
+            return False
+        return None
+    it = Interp(ctx.repo, 'wallets', hooks={'Script': h_script, 'DbKeyMultisigChildren': h_child}, self_cls='wallets:Wallet', decide=decide)
+    names = [a.arg for a in fn.args.args]
+    args = {'self': S(SELF), 'public_keys': objs, 'name': '', 'account_id': 0, 'change': 0, 'cosigner_id': 0, 'network': 'bitcoin', 'address_index': 0, 'witness_type': 'segwit'}
+    if set(names) - set(args):
+        ctx.undecided('_new_key_multisig has parameters this scenario does not bind: %s' % sorted(set(names) - set(args)))
+    try:
+        exits = it.run_function(fn, {k: v for k, v in args.items() if k in names}, State(heap=heap))
+    except AnalysisError as e:
+        ctx.undecided('_new_key_multisig not evaluable for %d cosigner keys, sort_keys=%s: %s' % (len(key_ids), sort_keys, str(e)[:100]))
+    if not any(e.kind == 'return' for e in exits) or len(script) != 1:
+        ctx.undecided('_new_key_multisig scenario: %d normal exits, %d redeem scripts built' % (sum(1 for e in exits if e.kind == 'return'), len(script)))
+    return script[0], kids
+
+
 @PROP.obligation('C10.sorted-keys', canaries=[
     mut.drop_stmt('wallets', 'Wallet._new_key_multisig', 'public_keys.sort(', 'address redeem script built in cosigner order'),
     mut.replace_expr('wallets', 'Wallet.transaction_create', 'self.sort_keys', 'False', 'spend redeem script built in stored key order', nth=1),
     mut.replace_expr('wallets', 'Wallet._new_key_multisig', 'self.multisig_n_required', 'len(public_key_list)', 'address redeem script requires all keys'),
+    mut.replace_expr('wallets', 'WalletTransaction.add_input_from_wallet', 'self.hdwallet.multisig_n_required', 'None', 'inputs added from the wallet fall back to the default threshold'),
 ])
 def sorted_keys(ctx):
-    """Address side: Wallet._new_key_multisig sorts the cosigner keys by key_public (under self.sort_keys) before it builds
-    Script(['multisig'], keys, sigs_required=self.multisig_n_required); Wallet.create sorts the cosigner list by public_byte. Spend side:
+    """Address side: Wallet._new_key_multisig, evaluated as a whole for three cosigner key objects given out of order, builds
+    Script(['multisig'], keys, sigs_required) from the public keys in byte order (under self.sort_keys; as given otherwise) and the wallet threshold; Wallet.create sorts the cosigner list by public_byte. Spend side:
     every transaction.add_input of transaction_create passes sort=self.sort_keys and sigs_required=self.multisig_n_required, and
     Input.__init__ sorts self.keys by public_byte when sort is set. WalletKey.key_public is the stored public key bytes."""
     q = 'wallets:Wallet._new_key_multisig'
     fn = ctx.repo.func(q)
-    sorts = [(n, c) for n in walk_no_nested(fn) if isinstance(n, ast.If) and norm(n.test) == 'self.sort_keys'
-             for s in n.body if isinstance(s, ast.Expr) and isinstance(s.value, ast.Call) and norm(s.value.func) == 'public_keys.sort' for c in [s.value]]
-    ctx.saw('_new_key_multisig sorts: %s' % [norm(c) for _, c in sorts])
-    if not sorts:
-        ctx.violate(q, 'the cosigner keys are not sorted before the redeem script is built', fn, 'cosigner wallets that received the keys in another order derive another address')
-    else:
-        ctx.require(_sort_key_attr(sorts[0][1]) == 'key_public', q, 'cosigner keys are sorted by %s, not by the public key bytes' % _sort_key_attr(sorts[0][1]), sorts[0][1])
-    mk = [c for c in ast.walk(fn) if isinstance(c, ast.Call) and norm(c.func) == 'Script' and any(k.arg == 'script_types' and 'multisig' in norm(k.value) for k in c.keywords)]
-    if not mk:
-        ctx.undecided('_new_key_multisig: redeem script construction not found')
-    kw = {k.arg: norm(k.value) for k in mk[0].keywords}
-    kwn = {k.arg: k.value for k in mk[0].keywords}
-    ctx.saw('redeem script: %s' % kw)
-    ctx.match(q, 'threshold of the address redeem script', kwn.get('sigs_required'), 'self.multisig_n_required', fn, mk[0], 'the address does not commit to m of the sorted keys')
-    keyvar = kw.get('keys')
-    pk = [n for n in walk_no_nested(fn) if isinstance(n, ast.Assign) and norm(n.targets[0]) == keyvar]
-    if len(pk) != 1 or not isinstance(pk[0].value, ast.ListComp):
-        ctx.unsure('%s: key list `%s` of the redeem script is not a single list comprehension' % (q, keyvar))
-    else:
-        comp = pk[0].value
-        src = norm(comp.generators[0].iter)
-        elt_ok = isinstance(comp.elt, ast.Attribute) and comp.elt.attr == 'key_public'
-        ctx.require(src == 'public_keys' and elt_ok, q, 'the key list of the redeem script is `%s`, not the public keys of the sorted cosigner list' % norm(comp), pk[0])
-        ctx.require(not sorts or pk[0].lineno > sorts[0][0].lineno, q, 'the key list is taken before the cosigner keys are sorted', pk[0], 'cosigner wallets that received the keys in another order derive another address')
+    pubs = {7: b'\x03' * 33, 5: b'\x02' * 33, 9: b'\x02' + b'\x01' * 32}
+    for sort_keys in (True, False):
+        script, kids = multisig_scenario(ctx, sort_keys, [7, 5, 9], pubs, 2)
+        want = sorted(pubs.values()) if sort_keys else [pubs[7], pubs[5], pubs[9]]
+        ctx.saw('_new_key_multisig, sort_keys=%s: cosigner keys %s -> script keys %s, sigs_required %s' % (sort_keys, ['%02x..' % pubs[k][0] + '%02x' % pubs[k][1] for k in (7, 5, 9)],
+                                                                                                  ['%02x..%02x' % (k[0], k[1]) if isinstance(k, bytes) else show(k)[:12] for k in script.get('keys', [])], show(script.get('sigs_required'))[:20]))
+        ctx.require(script.get('keys') == want, q, 'with sort_keys=%s the redeem script of an address is built from the keys in %s order' % (sort_keys, 'cosigner' if sort_keys else 'another'), fn,
+                    'cosigner wallets that received the keys in another order derive another address')
+        ctx.require(script.get('sigs_required') == 2, q, 'the address redeem script of a 2-of-3 wallet is built with sigs_required=%s, not the wallet threshold' % show(script.get('sigs_required'))[:40], fn,
+                    'the address does not commit to m of the sorted keys')
     # WalletKey.key_public = stored public key
     wk = ctx.repo.func('wallets:WalletKey.__init__')
     kp = [norm(n.value) for n in ast.walk(wk) if isinstance(n, ast.Assign) and norm(n.targets[0]) == 'self.key_public']
@@ -90,6 +118,23 @@ def sorted_keys(ctx):
         ctx.match(q, 'argument sort of add_input', kwn.get('sort'), 'self.sort_keys', fn, c, why)
         ctx.match(q, 'argument sigs_required of add_input', kwn.get('sigs_required'), 'self.multisig_n_required', fn, c, why)
         ctx.require('keys' in kwn, q, 'add_input is called without the keys of the wallet key', c, why)
+    # every other place of the wallet module that builds an input from wallet keys (add_input_from_wallet: hand-built spends, bumpfee)
+    m = ctx.repo.mod('wallets')
+    others = 0
+    for qn, f in sorted(m.functions.items()):
+        if qn == 'Wallet.transaction_create':
+            continue
+        owner = 'self.hdwallet' if qn.startswith('WalletTransaction.') else 'self'
+        for c in ast.walk(f):
+            if not (isinstance(c, ast.Call) and isinstance(c.func, ast.Attribute) and c.func.attr == 'add_input' and any(k.arg == 'keys' for k in c.keywords)):
+                continue
+            others += 1
+            kwn = {k.arg: k.value for k in c.keywords}
+            why = 'an input added this way in an m-of-n wallet is built as 1-of-n (the default threshold): it verifies with one signature for the builder and never for the next cosigner'
+            ctx.saw('%s: %s' % (qn, norm(c)[:120]))
+            ctx.match('wallets:' + qn, 'argument sort of add_input', kwn.get('sort'), owner + '.sort_keys', f, c, why)
+            ctx.match('wallets:' + qn, 'argument sigs_required of add_input', kwn.get('sigs_required'), owner + '.multisig_n_required', f, c, why)
+    ctx.floor(others, 1, 'add_input calls with wallet keys outside transaction_create')
     q = 'transactions:Input.__init__'
     fn = ctx.repo.func(q)
     ss = [c for n in walk_no_nested(fn) if isinstance(n, ast.If) and norm(n.test) == 'self.sort' for s in n.body if isinstance(s, ast.Expr) and isinstance(s.value, ast.Call) and norm(s.value.func) == 'self.keys.sort' for c in [s.value]]
